@@ -5,6 +5,7 @@ import (
 	"encoding/json"
 	"fmt"
 	"runtime/debug"
+	"sort"
 	"testing"
 
 	"github.com/wader/fq/pkg/decode"
@@ -27,6 +28,7 @@ var subStream = &treeq.Stream{Restart: 1500, Body: `
 | try
     ( if $in.mode == "bytes" then $in.buf | tobytes[$in.a:$in.b]
       elif $in.mode == "bits" then $in.buf | tobits[$in.a:$in.b]
+      elif $in.mode == "chunked" then [$in.cuts as $c | range($c | length - 1) as $i | $in.buf | tobits[$c[$i]:$c[$i+1]]] | tobits[$in.a:$in.b]
       else $in.root[0] | getpath($in.path) | tobytesrange
       end
     | decode($in.format)
@@ -43,7 +45,11 @@ type subCase struct {
 	PreBits int64       `json:"pre_bits"`
 	SufBits int64       `json:"suf_bits"`
 	Fill    uint64      `json:"fill"`
-	Via     string      `json:"via"` // go (decode.Options.Range) | jq (binary[a:b] | decode) | cli
+	Via     string      `json:"via"` // go (decode.Options.Range) | jq (binary[a:b] | decode) | jq-chunked | cli
+	// Cuts (jq-chunked): the buffer reaches the decoder as a concatenation of
+	// parts cut at these bit offsets ([p0, p1, ...] | tobits: a multi reader,
+	// whose reads are short at part boundaries)
+	Cuts []int `json:"cuts,omitempty"`
 	Pick    uint64      `json:"pick"`
 }
 
@@ -134,18 +140,46 @@ func TestSubRange(t *testing.T) {
 		sc.PreBits, sc.SufBits = drawPad(rt, "pre"), drawPad(rt, "suf")
 		sc.Fill = rapid.Uint64().Draw(rt, "fill")
 		sc.Pick = rapid.Uint64().Draw(rt, "pick")
-		sc.Via = rapid.SampledFrom([]string{"go", "go", "jq", "jq", "jq", "cli"}).Draw(rt, "via")
+		sc.Via = rapid.SampledFrom([]string{"go", "go", "jq", "jq", "jq", "cli", "jq-chunked", "jq-chunked"}).Draw(rt, "via")
 		if sc.Via == "cli" && (sc.PreBits%8 != 0 || sc.SufBits%8 != 0) {
 			sc.Via = "jq"
 		}
-		c.Set("case", sc)
-		c.Label("via:" + sc.Via)
 		nBits := int64(len(data)) * 8
 		if nBits == 0 {
+			c.Set("case", sc)
 			c.Label("skipped:empty-file")
 			return
 		}
 		buf, bufBits := treeq.Embed(data, nBits, sc.PreBits, sc.SufBits, sc.Fill)
+		if sc.Via == "jq-chunked" {
+			// 1..6 cuts, some near the start of the file (headers), byte aligned or not
+			nc := rapid.IntRange(1, 6).Draw(rt, "ncuts")
+			cuts := []int{0, int(bufBits)}
+			for i := 0; i < nc; i++ {
+				var k int
+				if rapid.Bool().Draw(rt, "cut_near_start") {
+					k = int(sc.PreBits) + rapid.IntRange(1, min(int(nBits), 1024)).Draw(rt, "cut_near")
+				} else {
+					k = rapid.IntRange(1, int(bufBits)-1).Draw(rt, "cut_any")
+				}
+				if rapid.Bool().Draw(rt, "cut_aligned") {
+					k = k / 8 * 8
+				}
+				if k > 0 && k < int(bufBits) {
+					cuts = append(cuts, k)
+				}
+			}
+			sort.Ints(cuts)
+			sc.Cuts = cuts[:1]
+			for _, k := range cuts[1:] {
+				if k != sc.Cuts[len(sc.Cuts)-1] {
+					sc.Cuts = append(sc.Cuts, k)
+				}
+			}
+			c.Label("subrange-chunked-source")
+		}
+		c.Set("case", sc)
+		c.Label("via:" + sc.Via)
 		if sc.PreBits%8 != 0 {
 			c.Label("subrange-start-unaligned")
 		}
@@ -167,7 +201,13 @@ func TestSubRange(t *testing.T) {
 				in := map[string]any{"buf": bin, "format": format, "mode": "bits", "a": int(sc.PreBits), "b": int(sc.PreBits + nBits)}
 				// (tobytes of a buffer whose length is not a whole number of
 				// bytes pads it first, which moves every offset)
-				if sc.PreBits%8 == 0 && bufBits%8 == 0 {
+				if sc.Via == "jq-chunked" {
+					cs := make([]any, len(sc.Cuts))
+					for i, k := range sc.Cuts {
+						cs[i] = k
+					}
+					in["mode"], in["cuts"] = "chunked", cs
+				} else if sc.PreBits%8 == 0 && bufBits%8 == 0 {
 					in["mode"], in["a"], in["b"] = "bytes", int(sc.PreBits/8), int((sc.PreBits+nBits)/8)
 				}
 				out, err := subStream.Next(in)
